@@ -1,6 +1,7 @@
 package props
 
 import (
+	"go/types"
 	"fmt"
 	"strings"
 
@@ -43,7 +44,7 @@ func (c C) nonceTable(fnName string, fn *ssa.Function, stateNonce, txNonce strin
 func C07(p *ir.Program, r *report.R) {
 	c := C{p, r}
 	r.Floor = 45
-	r.Explain = "Decided: (in one transaction) the duplicate-key-image test dominates the insertion into the per-transaction set and the subgroup check (ScalarmultKey(KeyImage, CurveOrder) == Identity) is on every path that accepts a confidential input; (in one block) the per-block key-image set test dominates its insertion, after CheckStoreState succeeded, and GetInputKeyImages returns the image of every confidential input; (across blocks / mempool) every iteration of CheckStoreState and checkState that handles a confidential input passes the not-spent-in-store test (checkState additionally not-in-mempool) and checkState pushes every collected image on its success path; (persistence) the images of every confidential transaction are collected by txRawProcess, stored with the block by CommitBlock after SaveBlock and SaveKImages writes every element and returns the batch error; (accounts) the three-way nonce comparison of all six check functions rejects txNonce<stateNonce as too low and txNonce>stateNonce as too high with the exact operands, the nonce is advanced by exactly one for every input on every path of Transit after preTransit succeeded. NOT decided: global uniqueness over histories as a set property, mempool/chain interleavings (C15), the cryptographic link between key image and output."
+	r.Explain = "Decided: (in one transaction) the duplicate-key-image test dominates the insertion into the per-transaction set and the subgroup check (ScalarmultKey(KeyImage, CurveOrder) == Identity) is on every path that accepts a confidential input; (in one block) the per-block key-image set test dominates its insertion, after CheckStoreState succeeded, and GetInputKeyImages returns the image of every confidential input; (across blocks / mempool) every iteration of CheckStoreState and checkState that handles a confidential input passes the not-spent-in-store test (checkState additionally not-in-mempool) and checkState pushes every collected image on its success path; (persistence) the images of every confidential transaction are collected by txRawProcess, stored with the block by CommitBlock after SaveBlock and SaveKImages writes every element and returns the batch error; (accounts) the three-way nonce comparison of all six check functions rejects txNonce<stateNonce as too low and txNonce>stateNonce as too high with the exact operands, the nonce is advanced by exactly one for every input on every path of Transit after preTransit succeeded. ADDED after seeded-change testing: SaveUtxo reaches SaveKImages(kImgs) on every path (skipped only for an empty image slice); the per-block and mempool key-image sets are keyed by the image value, not a pointer; in GenerateTransaction every input nonce is the transaction's own Nonce() (reviewed exemption: the account input of a confidential transaction, compared in CheckStoreState). NOT decided: global uniqueness over histories as a set property, mempool/chain interleavings (C15), the cryptographic link between key image and output."
 	r.Trusted = []string{"ringct.ScalarmultKey / CurveOrder / Identity (cgo)", "UTXOStore backend (C19)"}
 
 	// ---- in one transaction --------------------------------------------------
@@ -235,6 +236,62 @@ func C07(p *ir.Program, r *report.R) {
 		c.ErrorDiscipline("utxo.(*UtxoStore).SaveKImages", sk, "db.Batch.*")
 		su2 := p.Func("utxo", "UtxoStore.SaveUtxo")
 		c.ErrorDiscipline("utxo.(*UtxoStore).SaveUtxo", su2, "utxo.UtxoStore.SaveKImages")
+		// the images are stored whatever else the block contains (a block of pure withdrawals has
+		// key images and no confidential outputs): no return before SaveKImages(kImgs)
+		{
+			ski := ir.Calls(su2, "utxo.UtxoStore.SaveKImages")
+			okArg := len(ski) == 1 && Arg(ski[0], 1) == "kImgs"
+			r.Check("K2", "utxo.(*UtxoStore).SaveUtxo/SaveKImages/argument", p.Pos(su2.Pos()), okArg, "SaveKImages receives the block's image slice unchanged")
+			found, hit, tr := ir.FindPath(ir.PathQuery{From: ir.Entry(su2), Target: ir.IsReturn, Avoid: ir.CallMatcher("utxo.UtxoStore.SaveKImages"),
+				AvoidEdge: func(atoms []string) bool {
+					for _, a := range atoms {
+						if a == "eq(len(kImgs),0)" || a == "le(len(kImgs),0)" {
+							return true
+						}
+					}
+					return false
+				}})
+			d := "every path to a return passes SaveKImages (skipped only for an empty image slice)"
+			if found {
+				d += fmt.Sprintf(" — but %s is reached without it, blocks %v", p.InstrPos(hit), tr)
+			}
+			r.Check("K2", "utxo.(*UtxoStore).SaveUtxo/SaveKImages/on-every-path", p.Pos(su2.Pos()), !found, d)
+		}
+		// membership structures for key images are keyed by the image VALUE (a pointer key would
+		// compare identities: two transactions carrying the same image have different pointers)
+		for _, fld := range []struct{ rel, name string }{{"app", "processState.KeyImagesMap"}, {"mempool", "Mempool.kImageCache"}} {
+			fv := p.Field(fld.rel, fld.name)
+			okK := false
+			kt := "?"
+			if mt, ok := fv.Type().Underlying().(*types.Map); ok {
+				kt = mt.Key().String()
+				_, isPtr := mt.Key().Underlying().(*types.Pointer)
+				_, isIface := mt.Key().Underlying().(*types.Interface)
+				okK = !isPtr && !isIface
+			}
+			r.Check("K4", "key-image-set/"+fld.rel+"."+fld.name+"/keyed-by-value", p.Pos(fv.Pos()), okK, "map key type "+kt+" compares image bytes, not identities")
+		}
+		// the nonce the exact-next-nonce test sees is the transaction's own signed nonce
+		{
+			gt := p.Func("app", "GenerateTransaction")
+			nN := 0
+			for _, st := range p.Stores(p.Field("app", "txInput.Nonce")) {
+				if st.Fn != gt {
+					continue
+				}
+				nN++
+				v := ir.Render(st.Val)
+				switch {
+				case ir.Match("types.*.Nonce(txi.(*types.*)#0)", v):
+					r.Check("K5", "nonce-source/app.GenerateTransaction/"+strings.TrimSuffix(strings.TrimPrefix(v, "types."), v[strings.Index(v, ".Nonce("):]), p.InstrPos(st.Instr), true, "input nonce is the transaction's own nonce: "+v)
+				case strings.Contains(v, "types.UTXOTransaction"):
+					r.Check("K5", "nonce-source/app.GenerateTransaction/UTXOTransaction", p.InstrPos(st.Instr), strings.HasPrefix(v, "state.StateDB.GetNonce(state,types.UTXOTransaction.From("), "reviewed exemption: the account input of a confidential transaction carries its nonce inside the signed input and is compared with the state in CheckStoreState (nonce table above); Transit only advances it: "+short(v, 120))
+				default:
+					r.Check("K5", "nonce-source/app.GenerateTransaction/other", p.InstrPos(st.Instr), false, "input nonce does not come from the transaction: "+short(v, 160))
+				}
+			}
+			r.Check("K5", "nonce-source/app.GenerateTransaction/sites", p.Pos(gt.Pos()), nN >= 5, fmt.Sprintf("%d input nonce assignments found (confirmed by hand: 5)", nN))
+		}
 		c.ErrorDiscipline("app.(*LinkApplication).CommitBlock", cb, "utxo.UtxoStore.SaveUtxo")
 		hs := p.Func("utxo", "UtxoStore.HaveTxKeyimgAsSpent")
 		okH := false
